@@ -515,6 +515,19 @@ func writeReplay(cd *CheckDef, fv foundViolation, tier string, seed uint64) stri
 	v := fv.v
 	sc.Expect = &v
 	min := minimise(cd, &sc)
+	if min.Kind == "batch" && min.Sched != nil && len(min.Sched.Overlap) == 0 {
+		// make the replay file self-describing: record the decision sequence of the minimised schedule
+		rec := cloneScenario(min)
+		if rec.Params == nil {
+			rec.Params = map[string]string{}
+		}
+		rec.Params["record"] = "1"
+		if r, _ := runOne(cd, rec, 2*time.Minute, "VERIF_EMIT_DECISIONS=1"); r != nil && len(r.Decisions) > 0 && len(r.Decisions) <= 20000 {
+			if hasClass(r, v.Oracle, v.Class) != nil {
+				min.Sched.Decisions = r.Decisions
+			}
+		}
+	}
 	h := uint64(1469598103934665603)
 	for _, c := range []byte(v.Oracle + v.Class + fmt.Sprint(seed, fv.idx)) {
 		h ^= uint64(c)
